@@ -1,6 +1,6 @@
 // C06: arrays are values — writes through a copy never show through the original.
 //
-// Form H over a complete matrix: shape (8) x aliasing route (16) x mutation (23) x mutated side
+// Form H over a complete matrix: shape (8) x aliasing route (20) x mutation (23) x mutated side
 // (copy | original), and every chain of two routes x mutation x mutated name; thorough adds
 // sequences of two mutations. Every case
 // is one script on a fresh parser + VM that prints a json_encode+serialize snapshot of every live
@@ -319,7 +319,7 @@ func findings(k kase, o outcome, jc *judgeCache) []finding {
 			}
 		}
 		for _, r := range k.Routes {
-			if r == "param" {
+			if rr, _ := routeByName(r); rr.scope && rr.control == "" {
 				report(r, class, 0)
 			}
 		}
@@ -670,7 +670,7 @@ func main() {
 		return
 	}
 	if pool.IsWorker() {
-		pool.Serve(map[string]pool.Handler{"matrix": matrixWorker})
+		pool.Serve(map[string]pool.Handler{"matrix": matrixWorker, "lib": libWorker})
 	}
 	c := ev.New("C06")
 	defer runner.Cleanup()
@@ -685,7 +685,10 @@ func main() {
 	}
 	// waves: each wave is a complete sub-space; a wave is only started while the budget lasts
 	waves := map[string][]pool.Shard{}
-	order := []string{"1x1", "2x1", "1x2", "2x2r"}
+	order := []string{"1x1", "lib", "2x1", "1x2", "2x2r"}
+	for _, f := range libFns() {
+		waves["lib"] = append(waves["lib"], pool.Shard{Kind: "lib", Arg: libShard{Fn: f.Name}})
+	}
 	add := func(shape string, rs []string, mode string) {
 		waves[mode] = append(waves[mode], pool.Shard{Kind: "matrix", Arg: shardArg{Shape: shape, Routes: rs, Mode: mode, Rot: rot}})
 	}
@@ -779,6 +782,7 @@ func main() {
 	c.Set("shapes", len(shapes()))
 	c.Set("routes", len(routes()))
 	c.Set("mutations", len(mutations()))
+	c.Set("library_functions", len(libFns()))
 	c.Set("route_chains", chains)
 	c.Assume("closure capture is excluded (origami closures share the defining frame by design)")
 	c.Assume("snapshots are json_encode + serialize of each live name; a leak that neither encoder can show is not seen")
@@ -802,7 +806,7 @@ func main() {
 	if unevalTotal*5 > total {
 		c.HarnessError("more than 20%% of the cases could not be evaluated (%d of %d)", unevalTotal, total)
 	}
-	c.Finish(total-unevalTotal, runs, total-unevalTotal, fmt.Sprintf("complete matrix shape(%d) x route(%d) x mutation(%d) x mutated side, + %d reference/handle control routes, + object table, + %d two-route chains (thorough: + two-mutation sequences); oracle: snapshot of every non-mutated name identical before/after inside the same run", len(shapes()), len(routes()), len(mutations()), len(controls()), chains))
+	c.Finish(total-unevalTotal, runs, total-unevalTotal, fmt.Sprintf("complete matrix shape(%d) x route(%d) x mutation(%d) x mutated side, + %d reference/handle control routes, + object table, + library family (array functions x argument-shape tuples: call must not change its arguments, result and arguments independent), + %d two-route chains (thorough: + two-mutation sequences); oracle: snapshot of every non-mutated name identical before/after inside the same run", len(shapes()), len(routes()), len(mutations()), len(controls()), chains))
 }
 
 func runWave(c *ev.Check, shards []pool.Shard, total, na, runs, copyDiff *int64, uneval map[string]int64, matrix map[string]*cell, mutStat map[string]*[4]int64, ctrl map[string]*[2]int64, diverge map[string]string, leakBy map[string]int64) {
@@ -810,6 +814,19 @@ func runWave(c *ev.Check, shards []pool.Shard, total, na, runs, copyDiff *int64,
 		var r rec
 		json.Unmarshal(rb, &r)
 		switch r.Kind {
+		case "libcount":
+			*total += r.N
+			*runs += r.Runs
+			c.Add("library_cases", r.N)
+			c.Add("library_writes_judged", r.NA)
+			for k, n := range r.Uneval {
+				uneval[k] += n
+			}
+			for k, n := range r.Counts {
+				for i := int64(1); i < n; i++ {
+					c.Fail(k, "", 1<<30, nil, "")
+				}
+			}
 		case "count":
 			*total += r.N
 			*na += r.NA
@@ -873,6 +890,20 @@ func replay(c *ev.Check) {
 	key, err := ev.LoadReplay(c.Replay, &cs)
 	if err != nil {
 		c.HarnessError("replay: %v", err)
+		c.Finish(1, 1, 1, "replay")
+	}
+	if cs.Kind == "lib" {
+		var lc libCase
+		json.Unmarshal(cs.Case, &lc)
+		o := judgeLib(lc)
+		fmt.Println(o.Script)
+		if !o.Evaluable {
+			fmt.Println("not evaluable:", o.Reason)
+		}
+		for _, f := range o.Findings {
+			fmt.Println(f.Key, "\n", f.Detail)
+			c.Fail(f.Key, "leak", 0, map[string]any{"kind": "lib", "case": lc}, f.Detail)
+		}
 		c.Finish(1, 1, 1, "replay")
 	}
 	if cs.Kind == "object" {
